@@ -45,12 +45,12 @@ REQ_KINDS = ["doc-small", "doc-large", "menu", "menu", "menu-root", "menu-root",
              "mbox-message", "maildir-folder", "maildir-message", "zip-listing", "zip-member", "zip2-member", "tal",
              "notfound", "gophermap", "url", "pyg", "script", "gz", "script-big", "gz-big", "mbox-message-1",
              "maildir-message-2", "zip-html-a", "zip-html-b", "stale-links", "menu-via-symlink", "menu-via-symlink",
-             "zip-web-listing", "zip2-listing", "hidden-twice"]
+             "zip-web-listing", "zip2-listing", "hidden-twice", "html-alpha", "html-beta"]
 # groups of requests that touch the same underlying object / mechanism (a burst is often drawn from one group)
 GROUPS = [["menu", "menu-root", "menu-via-symlink"], ["menu", "menu-via-symlink"], ["mbox-folder", "mbox-message", "mbox-message-1"],
           ["maildir-folder", "maildir-message", "maildir-message-2"],
           ["zip-listing", "zip-member", "zip-html-a", "zip-html-b", "zip2-member", "zip-web-listing", "zip2-listing"],
-          ["script", "script-big", "gz", "gz-big"], ["script", "script", "script-big"], ["html", "tal", "pyg"]]
+          ["script", "script-big", "gz", "gz-big"], ["script", "script", "script-big"], ["html", "tal", "pyg"], ["html-alpha", "html-beta", "html"], ["html-alpha", "html-beta", "zip-html-a", "zip-html-b"]]
 BIG = ["doc-large", "script-big", "gz-big", "menu-root", "mbox-folder"]
 PROTOS = c20.PROTOS + ["wap-auto", "http", "https"]
 TIMEOUT = 60
@@ -106,6 +106,8 @@ def _burst(rng, n):
             # a slow reader only matters when the response is larger than its send buffer
             kind = rng.choice([k for k in BIG if (group is None or k in group)] or BIG)
         p = rng.choice(PROTOS)
+        if kind.startswith(("html", "zip-html")) and rng.random() < 0.6:
+            p = rng.choice(["gopher!", "gopher!", "gopher$", "sgopher+"])   # the views that show the sniffed title
         search = None
         if kind in ("script", "script-big", "pyg", "menu", "tal") and rng.random() < 0.6:
             search = rng.choice(["alpha", "beta gamma", "x" * 40, "q1", "q2"])
